@@ -1018,6 +1018,11 @@ func (s *SQLiteStore) dequeueOnce(req DequeueRequest, batch int, leaseTTL time.D
 		now = s.now()
 	}
 	leaseUntil := now.Add(leaseTTL)
+	if leaseTTL > 0 && int64(leaseTTL) > math.MaxInt64-now.UnixNano() {
+		// now+leaseTTL leaves the int64 nanosecond range (year 2262): UnixNano()
+		// would wrap to a negative, already expired lease_until. Saturate.
+		leaseUntil = time.Unix(0, math.MaxInt64).In(now.Location())
+	}
 
 	ctx := context.Background()
 	conn, err := s.db.Conn(ctx)
